@@ -12,6 +12,7 @@ PadForms == {[GoodPad EXCEPT !.val = v, !.even = e] : v \in {<<1>>, <<1, 1>>, <<
 Applicable(nch, cal, anchor) ==
     {[c |-> "chainInput", at |-> k] : k \in 2..nch} \cup {[c |-> "chainTime", at |-> k] : k \in 2..nch}
     \cup {[c |-> "indexCont", at |-> k] : k \in 2..nch} \cup {[c |-> "indexShape", at |-> k] : k \in 1..nch}
+    \cup {[c |-> "chainLevel", at |-> k] : k \in 1..nch}
     \cup {[c |-> "inputAlg", at |-> 1]} \cup {[c |-> "aggrAlg", at |-> k] : k \in 1..nch}
     \cup (IF cal THEN {[c |-> "calInput", at |-> 0], [c |-> "calAggrTime", at |-> 0], [c |-> "calShape", at |-> 0]} ELSE {})
     \cup (IF anchor = "pub" THEN {[c |-> "pubHash", at |-> 0], [c |-> "pubTime", at |-> 0]} ELSE {})
